@@ -450,6 +450,14 @@ $inc = function ($by) use (&$count, &$log) { $count += $by; $log[] = $count; ret
 $inc(1); $inc(2); echo $count, " ", implode(",", $log), " ";
 $count = 10; echo $inc(5), "\n";
 `},
+	{name: "clo.return.type", witness: "closure-return-type-dropped", src: `
+$ok = function ($x): int { return $x + 1; };
+echo $ok(1), "\n";
+$bad = function ($x): int { return $x; };
+echo "before\n";
+echo $bad("a"), "\n";
+echo "after\n";
+`},
 	{name: "clo.arrow", feats: "closure,arrow-fn", wrap: true, src: `
 $y = 10; $f = fn($x) => $x + $y; $g = fn($x) => fn($z) => $x + $y + $z; $h = fn() => [1, $y];
 echo $f(1), " ", $g(1)(2), " ", count($h()), " "; $y = 20; echo $f(1), "\n";
